@@ -132,6 +132,27 @@ func castBool(v string) (interface{}, error) {
 }
 
 func castInt(v string, t reflect.Type) (interface{}, error) {
+	switch t.Kind() {
+	case reflect.Uint, reflect.Uint8, reflect.Uint16, reflect.Uint32, reflect.Uint64:
+		// unsigned target: a negative value is out of range (it must not wrap around) and the
+		// whole unsigned range of the type is valid
+		uintV, err := strconv.ParseUint(v, 0, t.Bits())
+		if err != nil {
+			return nil, fmt.Errorf("%s cast to %s failed: %w", strconv.Quote(v), t, ErrCantCastVariableToTargetType)
+		}
+		switch t.Kind() {
+		case reflect.Uint:
+			return uint(uintV), nil
+		case reflect.Uint8:
+			return uint8(uintV), nil
+		case reflect.Uint16:
+			return uint16(uintV), nil
+		case reflect.Uint32:
+			return uint32(uintV), nil
+		default:
+			return uintV, nil
+		}
+	}
 	intV, err := strconv.ParseInt(v, 0, t.Bits())
 	if err != nil {
 		return nil, fmt.Errorf("'%s' cast to %s failed: %w", v, t, ErrCantCastVariableToTargetType)
